@@ -57,7 +57,7 @@ def _payload(spec: dict, n: int) -> bytes:
         if n < 2:
             return b"7" * max(n, 1)
         return b'"' + b"a" * (n - 2) + b'"'
-    if k == "filetoy":
+    if k in sers.FILE_TOYS:
         return bytes([n]) + b"q" * n
     sep = sers.separator(spec)
     fill = next(bytes([c]) for c in b"bcxyz" if c not in sep)
@@ -102,16 +102,19 @@ def _stream(case: dict) -> bytes:
             return jraw.unterminated(spec["shape"], n)
         if k == "json" and sep is None:
             return b'"' + b"a" * max(n - 1, 0)        # a string that never closes
-        if k == "filetoy":
+        if k in sers.FILE_TOYS:
             return bytes([200]) + b"q" * min(n, 199)  # header promises 200 bytes
         return p
     follower = _payload(spec, 1 if k != "json" else 3)
+    # `follow` (default 1): number of small frames pipelined behind the frame under test — with several of them in one read,
+    # what is buffered behind a complete frame exceeds the limit although every frame is far below it
+    nf = case.get("follow", 1)
     if sep is not None:
-        return p + sep + follower + sep
+        return p + sep + (follower + sep) * nf
     if k == "json":
         # the producer terminates plain values (numbers, literals) with a newline
-        return p + (b"" if p[:1] in (b"{", b"[", b'"') else b"\n") + follower
-    return p + follower
+        return p + (b"" if p[:1] in (b"{", b"[", b'"') else b"\n") + follower * nf
+    return p + follower * nf
 
 
 def run_real(case: dict) -> list[str]:
@@ -120,6 +123,12 @@ def run_real(case: dict) -> list[str]:
     proto = sd.make_protocol(spec, case["path"])
     lines: list[str] = []
     chunks_used: list[bytes] = []
+
+    keep = sd.Retain()
+    budget = [len(stream) + 4]
+
+    class _Loop(Exception):
+        pass
 
     def deliver(fn, arg):
         while True:
@@ -130,9 +139,24 @@ def run_real(case: dict) -> list[str]:
             except StreamProtocolParseError as e:
                 lines.append(sd.err_line(e))
             else:
-                lines.append(sd.pkt_line(p))
+                keep.add(p, lines)
             arg = None
+            budget[0] -= 1
+            if budget[0] < 0:
+                # more items than bytes: an error that consumes nothing is reported again and again
+                lines.append("loop")
+                raise _Loop
 
+    try:
+        _drive(case, stream, proto, lines, chunks_used, deliver)
+    except _Loop:
+        pass
+    keep.finish(lines)
+    _aux[core.case_digest(case)] = {"chunks": chunks_used}
+    return lines
+
+
+def _drive(case: dict, stream: bytes, proto, lines: list[str], chunks_used: list[bytes], deliver) -> None:
     if case["path"] == "copy":
         consumer = StreamDataConsumer(proto)
         for ch in sd.cut(stream, case["cuts"]):
@@ -159,8 +183,6 @@ def run_real(case: dict) -> list[str]:
             lines.append(f"read {n}")
             i += n
             deliver(consumer.next, n)
-    _aux[core.case_digest(case)] = {"chunks": chunks_used}
-    return lines
 
 
 def real_for_diff(case: dict, real: list[str]) -> list[str]:
@@ -168,6 +190,8 @@ def real_for_diff(case: dict, real: list[str]) -> list[str]:
 
 
 def model_input(case: dict, real: list[str]):
+    if "loop" in real or any(ln.startswith("mutated ") for ln in real):
+        return None
     head = sers.model_head(case["spec"], case["path"], case.get("hint", 0))
     aux = _aux.get(core.case_digest(case))
     if head is None or aux is None:
@@ -195,7 +219,7 @@ def _safe(case: dict, maxread: int) -> bool:
     if k == "json":
         # ---- raw JSON framer ---- exact threshold (DESIGN.md C07 table): |document| <= limit
         return len(_payload(spec, n)) <= lim
-    if k == "filetoy":
+    if k in sers.FILE_TOYS:
         return (n + 1) + maxread <= lim
     return True
 
@@ -209,6 +233,13 @@ def oracle(case: dict, real: list[str]) -> str | None:
         return "unexpected exception: " + next(ln for ln in real if ln.startswith("harness-exc"))
     if "crashed" in real:
         return "RuntimeError escaped from the consumer (write buffer exhausted before a limit error was raised)"
+    why = sd.mutated(real)
+    if why:
+        return why
+    if "loop" in real:
+        errs = sorted({ln for ln in real if ln.startswith("err ")})
+        return (f"more items than bytes received: an error that consumes nothing is reported for ever ({errs}); "
+                f"the data over the limit is never dropped")
     reads = [int(ln.split()[1]) for ln in real if ln.startswith("read ")]
     maxread = max(reads) if reads else 0
     # capacity offered on the buffered path never exceeds the limit
@@ -245,7 +276,7 @@ def oracle(case: dict, real: list[str]) -> str | None:
     if k == "json" and sep == b"" and len(first_payload) > lim and items and items[0].startswith("pkt "):
         return f"document of {len(first_payload)} bytes > limit {lim} was delivered: {items[0]}"
     # ---- end raw JSON framer ----
-    if case["n"] > lim + len(sep) + maxread and k != "filetoy":
+    if case["n"] > lim + len(sep) + maxread and k not in sers.FILE_TOYS:
         # the oversized frame must not come out whole
         try:
             exp = sd.pkt_line(sd.frame_decode(spec, ser, first_payload + (sep if sers.keep_end(spec) else b"")))
@@ -282,19 +313,32 @@ def known_key(case: dict, real: list[str], why: str) -> str:
 
 
 def _gen_spec(rng):
-    k = rng.choice(["line", "autosep", "autosep", "jsonl", "jsonraw", "filetoy"])
+    spec = _gen_spec0(rng)
+    if rng.random() < 0.3:
+        spec["debug"] = True
+    return spec
+
+
+def _gen_spec0(rng):
+    k = rng.choice(["line", "autosep", "autosep", "jsonl", "jsonraw", "filetoy", "filetoy"])
     lim = rng.choice([4, 6, 8, 10, 12, 16, 24])
     if k == "line":
         return {"k": "line", "newline": rng.choice(["LF", "CR", "CRLF"]), "keep_end": rng.random() < 0.3,
                 "encoding": "ascii", "limit": lim}
     if k == "autosep":
-        return {"k": "autosep", "sep": rng.choice(["0a", "0d0a", "7c7c", "616162", "2d2d3e"]), "limit": lim, "check": True}
+        return {"k": "autosep", "sep": rng.choice(["0a", "0d0a", "7c7c", "616162", "2d2d3e", "3c7c3e", "0d0a2e", "61626364"]), "limit": lim, "check": True}
     if k == "jsonl":
         return {"k": "json", "use_lines": True, "limit": lim}
     if k == "jsonraw":
         # ---- raw JSON framer ---- (shape of the document / of the unterminated data)
         return {"k": "json", "use_lines": False, "limit": lim, "shape": rng.choice(jraw.SHAPES + ["", ""])}
-    return {"k": "filetoy", "limit": max(lim, 8)}
+    # file toys: plain / peeking / read-ahead loader x expected_load_error (narrow, Exception, tuples with Exception or
+    # DeserializeError: those cover the library's own LimitOverrunError) x debug
+    spec = {"k": rng.choice(sers.FILE_TOYS), "limit": max(lim, 8)}
+    e = rng.choice(sers.EXPECTED_KEYS)
+    if e != "toy":
+        spec["expected"] = e
+    return spec
 
 
 def corpus() -> list[dict]:
@@ -306,6 +350,24 @@ def corpus() -> list[dict]:
             out.append({"spec": spec, "path": path, "n": n, "terminated": True, "cuts": [n + 1, 100], "hint": 4})
         out.append({"spec": spec, "path": path, "n": 40, "terminated": False, "cuts": [3], "hint": 4})
         out.append({"spec": spec, "path": path, "n": 40, "terminated": False, "cuts": [1], "hint": 4})
+    # file toys, every expected_load_error configuration: a header promising 200 bytes dripped far beyond the limit, and
+    # frames around the limit
+    for k in sers.FILE_TOYS:
+        for e in sers.EXPECTED_LOAD_ERRORS:
+            fs = {"k": k, "limit": 16, "expected": e, "debug": e == "tuple"}
+            for path in ("copy", "buffered"):
+                for cuts in ([1], [7], [16], [40]):
+                    out.append({"spec": fs, "path": path, "n": 120, "terminated": False, "cuts": cuts, "hint": 8, "pattern": 0})
+                for n in (0, 7, 14, 15, 16, 17, 30):
+                    out.append({"spec": fs, "path": path, "n": n, "terminated": True, "cuts": [1], "hint": 8, "pattern": 0})
+                    out.append({"spec": fs, "path": path, "n": n, "terminated": True, "cuts": [5, 3], "hint": 8, "pattern": 0, "follow": 3})
+    # raw JSON: small documents pipelined in one read (everything buffered behind the first one exceeds the limit)
+    for lim in (8, 64):
+        for shape in jraw.SHAPES:
+            for n in (1, 4, 7, 8):
+                for follow, cuts in ((2, [1000]), (8, [1000]), (20, [lim + 1]), (20, [3 * lim]), (5, [n + 2, 1000])):
+                    out.append({"spec": {"k": "json", "use_lines": False, "limit": lim, "shape": shape}, "path": "copy", "n": n,
+                                "terminated": True, "cuts": cuts, "hint": 1, "pattern": 0, "follow": follow})
     return out
 
 
@@ -317,7 +379,7 @@ def generate(rng, tier: str, boost: int):
         sep = sers.separator(spec) or b""
         path = "buffered" if (sers.is_buffered(spec) and rng.random() < 0.5) else "copy"
         maxn = lim + len(sep) + 8
-        if sers.recv_spec(spec)["k"] == "filetoy":
+        if sers.recv_spec(spec)["k"] in sers.FILE_TOYS:
             maxn = min(maxn, 199)
         nn = rng.randint(0, maxn)
         terminated = rng.random() < 0.7
@@ -331,9 +393,14 @@ def generate(rng, tier: str, boost: int):
         else:
             cuts = [rng.choice([1, 2, 3, lim - 1, lim, lim + 1, 7, 20]) for _ in range(rng.randint(1, 8))]
             cuts = [c for c in cuts if c > 0] or [1]
-        yield {"spec": spec, "path": path, "n": nn, "terminated": terminated, "cuts": cuts,
-               "hint": rng.choice([1, 2, 3, 8, 64, 16384]),
-               "pattern": 0 if terminated else rng.choice([0, 0, 2, 3, 5, 7])}
+        case = {"spec": spec, "path": path, "n": nn, "terminated": terminated, "cuts": cuts,
+                "hint": rng.choice([1, 2, 3, 8, 64, 16384]),
+                "pattern": 0 if terminated else rng.choice([0, 0, 2, 3, 5, 7])}
+        if terminated and rng.random() < 0.3:
+            case["follow"] = rng.choice([2, 3, 8, 20])
+            if rng.random() < 0.5:
+                case["cuts"] = [rng.choice([lim + 5, 2 * lim, 64, 1000])]
+        yield case
     # ---- raw JSON framer ---- document lengths swept across the limit band x one cut at every position / drip feed
     for _ in range((1200 if tier == "quick" else 30000) * boost):
         lim = rng.choice([4, 6, 8, 10, 12, 16, 24])
@@ -343,7 +410,12 @@ def generate(rng, tier: str, boost: int):
         nn = max(nn, 1)
         r = rng.random()
         cuts = [1] if r < 0.3 else [rng.randint(1, nn + 3), 100] if r < 0.7 else [rng.choice([1, 2, 3, lim - 1, lim, lim + 1]) for _ in range(rng.randint(1, 6))]
-        yield {"spec": spec, "path": "copy", "n": nn, "terminated": terminated, "cuts": cuts, "hint": 1, "pattern": 0}
+        case = {"spec": spec, "path": "copy", "n": nn, "terminated": terminated, "cuts": cuts, "hint": 1, "pattern": 0}
+        if terminated and rng.random() < 0.3:
+            # a burst of small documents behind the one under test, most of it in one read
+            case["follow"] = rng.choice([2, 5, 20])
+            case["cuts"] = [rng.choice([nn + 1, nn + 4, lim + 1, 2 * lim, 1000])]
+        yield case
     # ---- end raw JSON framer ----
     if tier == "thorough":
         for lim in range(4, 17):
